@@ -89,13 +89,13 @@ var seqsimAssume = []string{
 
 func init() {
 	props["C16"] = propCfg{Engine: "seqsim", Level: "fault_enumeration", QuickRandom: 100000, QuickWall: 20, ThoroughRand: 3000000, ThoroughWall: 540, Assumptions: seqsimAssume,
-		Rule: "one case = one visit (Morphism.Apply) of one program. Programs: every well-typed program of Join/LiftF/WrapF/Unit/Yield up to length 5 (thorough 6) after From over the type universe int, []int, [][]int, [][][]int, Void (exhaustive), plus seeded random programs up to length 9 (thorough 14), nesting depth <= 6. For each program: the fault-free visit, then one visit per callback position k with the visitor failing exactly there (exhaustive over k). evaluations = visits; distinct = distinct programs; non-trivial = program opens at least one nested context."}
+		Rule: "one case = one visit (Morphism.Apply) of one program. Programs: every well-typed program of Join/LiftF/WrapF/Unit/Yield up to length 5 (thorough 6) after From over the type universe int, []int, [][]int, [][][]int, Void (exhaustive), plus seeded random programs up to length 9 (thorough 14), nesting depth <= 6. For each program: the fault-free visit (twice), then one visit per callback position k with the visitor failing exactly there (exhaustive over k), each followed by a fault-free visit of the same program value. Random programs also use F/T values that are zero values or converted from another instantiation, and are visited between construction steps. evaluations = visits; distinct = distinct programs; non-trivial = program opens at least one nested context."}
 	props["C18"] = propCfg{Engine: "seqsim", Level: "exploration", QuickRandom: 240000, QuickWall: 20, ThoroughRand: 600000, ThoroughWall: 540, Assumptions: seqsimAssume,
-		Rule: "one case = one operation history executed against the real skip list and a Go map, inside a bubble whose simulated clock (the seed of the height generator) was advanced to a chosen offset before skiplist.New. Enumerated: every history of Put/Get/Remove over keys {1,2,3} x values {1,2} up to length 4 (thorough 5) x 6 clock offsets (thorough 10); then seeded random histories (quick <= 40 operations, thorough <= 2000; universes of 2..64 keys; int, reversed int and string keys; churn / descending / overwrite biases; random clock offsets). After every operation the printed form is parsed and checked. Distinct = distinct (history, clock offset); non-trivial = removes a present key or overwrites one."}
+		Rule: "one case = one operation history executed against the real skip list and a Go map, inside a bubble whose simulated clock (the seed of the height generator) was advanced to a chosen offset before skiplist.New. Enumerated: every history of Put/Get/Remove over keys {1,2,3} x values {1,2} up to length 4 (thorough 5) x 6 clock offsets (thorough 10); then seeded random histories (quick <= 40 operations, thorough <= 2000; universes of 2..64 keys; int, reversed int and string keys; churn / descending / overwrite / one-key-hammering biases; values that are slices or maps; random clock offsets), plus one long-lived list per check (2^22 rounds of Put/Get/Remove over three keys, then 2^21 further keys live at once; thorough 2^24 rounds). After every operation (or at drawn positions) the printed form is parsed and checked. Distinct = distinct (history, clock offset); non-trivial = removes a present key or overwrites one."}
 	props["C11"] = propCfg{Engine: "pipesim", Level: "exploration", QuickRandom: 150000, QuickWall: 20, ThoroughRand: 40000000, ThoroughWall: 540,
 		Rule: "one case = one simulated run of Emit or Unfold on the virtual clock. Enumerated: {Emit,Unfold} x capacity {0,1,2,5} x consumer takes 0..4 values (thorough 0..7) x 6 base schedules x 3 consumer paces (always ready, fixed slower pace, burst after a long stall), cancel swept over every step; then seeded random plans: function family, frequency {1ms,10ms,1s}, Try-mode failing index sets, consumer paces, cancel by step / virtual time / after the consumer left. Oracles: k-th value exact (online), calls at least one frequency apart, k-th value not before k ticks, always-ready consumer receives exactly one value per tick, close and exit after cancel. " + distinctRule}
 	props["C12"] = propCfg{Engine: "pipesim", Level: "exploration", QuickRandom: 150000, QuickWall: 20, ThoroughRand: 40000000, ThoroughWall: 540,
-		Rule: "one case = one simulated run of Join with 0..5 inputs, one producer task per input (random part: up to 17 inputs). Enumerated: 14 input shapes incl. 8, 9 and 17 inputs (thorough 18) x capacity {0,1,3} x 6 base schedules x {plain, one input closing long after the others, slow consumer}; then seeded random plans (lengths <= 6, thorough <= 30; independent paces; one deliberately slow input; an input that never closes). Oracles: per-input order online, completeness, close observed strictly after every producer's close and after every element, close does happen, no close when an input stays open. " + distinctRule}
+		Rule: "one case = one simulated run of Join with 0..5 inputs, one producer task per input (random part: up to 17 inputs). Enumerated: 14 input shapes incl. 8, 9 and 17 inputs (thorough 18) x capacity {0,1,3} x 6 base schedules x {plain, one input closing long after the others, slow consumer}; then seeded random plans (lengths <= 6, thorough <= 30; independent paces; one deliberately slow input; an input that never closes; contexts that cannot be cancelled). Oracles: per-input order online, completeness, close observed strictly after every producer's close and after every element, close does happen, no close when an input stays open, and no completed send held back by another input that stays open. " + distinctRule}
 	props["C13"] = propCfg{Engine: "pipesim", Level: "exploration", QuickRandom: 150000, QuickWall: 20, ThoroughRand: 40000000, ThoroughWall: 540,
 		Rule: "one case = one simulated run of Throttling on the virtual clock. Enumerated: ops {1,2} (thorough 1..3) x c {0,1,3} x 4 lengths x 6 base schedules x {saturated, consumer late by 2.5 intervals, input late by 2.5 intervals, slow consumer}; then seeded random plans: ops {1,2,3,5}, interval {10ms,100ms,1s}, idle-then-burst on either side, idle in the middle, random paces, cancel. Oracles: order/content online, window bound 2*ops+1+c over every window of deliveries before cancel, interval membership under the saturated schedule, closure. " + distinctRule}
 	props["C09"] = propCfg{Engine: "pipesim", Level: "exploration", QuickRandom: 150000, QuickWall: 20, ThoroughRand: 40000000, ThoroughWall: 540,
@@ -103,7 +103,7 @@ func init() {
 	props["C10"] = propCfg{Engine: "pipesim", Level: "exploration", QuickRandom: 150000, QuickWall: 20, ThoroughRand: 40000000, ThoroughWall: 540,
 		Rule: "one case = one simulated run of fork.Fold and, on the same input in the same run, pipe.Fold. Enumerated: 8 commutative monoids (sum/0, plain product/1, modular product/1, max/MinInt, min/MaxInt, and/all-ones, or/0, gcd/0) x par {1,2,3,4} x length 0..4 (thorough 0..7) x 6 base schedules; then seeded random plans: par in {1,2,3,4,8}, length <= 20 (also shorter than par and empty), stalls and scheduling points inside Combine (distributions of elements over workers), preemption. Inputs are distinct powers of 8 for sum and distinct primes for the plain product, so that the result encodes how often each element was combined. " + distinctRule}
 	props["C08"] = propCfg{Engine: "pipesim", Level: "exploration", QuickRandom: 150000, QuickWall: 20, ThoroughRand: 40000000, ThoroughWall: 540,
-		Rule: "one case = one simulated run of pipe.New with 1-3 sender tasks and 1-2 receiver tasks. Enumerated: capacity {0,1,2,5} x 0..4 values (thorough 0..6) x 6 base schedules x 6 shapes (cancel at quiescence, sender close, receiver never receives, cancel swept over every step with an eager and with a late receiver, bursts that drain the queue to empty and refill it); then seeded random plans (capacity up to 16, several senders/receivers, paces, cancel by step/virtual time, sender close, abandonment, pool eviction). Oracles: online FIFO/no-duplicate/nothing-invented, porcupine linearizability of the Send/Recv history against a sequential FIFO queue (histories <= 24 operations, 0.5 s budget each; a timed-out check is counted as inconclusive in probes, never reported), completeness after cancel and after sender close, senders never blocked. " + distinctRule}
+		Rule: "one case = one simulated run of pipe.New with 1-3 sender tasks and 1-2 receiver tasks. Enumerated: capacity {0,1,2,5} x 0..4 values (thorough 0..6) x 6 base schedules x 6 shapes (cancel at quiescence, sender close, receiver never receives, cancel swept over every step with an eager and with a late receiver, bursts that drain the queue to empty and refill it) plus a fixed handful of plans with 66000-69000 undelivered values; then seeded random plans (capacity up to 16, several senders/receivers, paces, cancel by step/virtual time, sender close, abandonment, pool eviction). Oracles: online FIFO/no-duplicate/nothing-invented, porcupine linearizability of the Send/Recv history against a sequential FIFO queue (histories <= 24 operations, 0.5 s budget each; a timed-out check is counted as inconclusive in probes, never reported), completeness after cancel and after sender close, senders never blocked. " + distinctRule}
 	props["C07"] = propCfg{Engine: "pipesim", Level: "fault_enumeration", QuickRandom: 150000, QuickWall: 20, ThoroughRand: 40000000, ThoroughWall: 540,
 		Rule: "one case = one simulated run. Fault = the user function returning an error. Enumerated (complete for that sub-space): {Map,FMap}x{Lift,Try}, Emit x {Lift,Try}, Unfold x Lift, every subset of failing positions for n = 0..4 (thorough 0..6), capacity {0,1,2}, 4 base schedules, 3 consumer orders (concurrent, values first, errors first); then seeded random plans (n <= 6, thorough <= 40; first/last/all/sparse/dense failure patterns; StdErr as the error reader; paces; all policies). " + distinctRule}
 }
